@@ -65,6 +65,9 @@ def main(tier, replay=None):
     for bk in ("idn", "idnkit"):
         exe_b, _ = build.build_sched("-" + bk, [], backend=bk)
         batches.append(Batch("swarm-" + bk, exe_b, "C14", "swarm", seed + 4, 4000 if q else 10**8, 60 if q else 90, W, extra=extra("swarm-" + bk)).run())
+    # "crowd": up to 320 threads (runtime built with a larger thread table and a smaller shadow table)
+    exe_c, _ = build.build_sched("-crowd", ["-DSIM_MAXT=321", "-DSIM_NCELL_LOG=14"])
+    batches.append(Batch("crowd", exe_c, "C14", "crowd", seed + 8, 160 if q else 10**8, 60 if q else 120, W, extra=extra("crowd")).run())
     if tier == "thorough":
         # other build configurations of the same sources: EAV_EXTRA (strndup'd lpart/domain), and the optional grammar flags
         for vn, defs in (("-extra", ["-DEAV_EXTRA"]), ("-flags", ["-DRFC6531_FOLLOW_RFC5322", "-DRFC6531_FOLLOW_RFC20", "-DLABELS_ALLOW_UNDERSCORE"])):
